@@ -42,6 +42,9 @@ func c14Loop(steps int) {
 		c14.loadFails = vBool(vName("reloadFails", i))
 		c14.addFails = vBool(vName("rewatchFails", i))
 		loads, adds := c14.loads, len(c14.adds)
+		if op&(fsnotify.Write|fsnotify.Create|fsnotify.Remove) != 0 {
+			c14fs.version++ // the update that caused the event
+		}
 		cw.watcher.Events <- fsnotify.Event{Name: name, Op: op}
 		vYield()
 		relevant := op&(fsnotify.Write|fsnotify.Create|fsnotify.Remove) != 0
